@@ -66,6 +66,32 @@ def print_assumptions(targets):
     return res
 
 
+def print_assumptions_geneq(names):
+    """Print Assumptions of the translation equalities that compiled"""
+    res = {}
+    names = [n for n in names if os.path.exists(os.path.join(build.COQ, "GenEq", n + ".vo"))]
+    if not names:
+        return res
+    d = os.path.join(build.BUILD, "audit")
+    os.makedirs(d, exist_ok=True)
+    fn = os.path.join(d, "Audit_GenEq_%d.v" % os.getpid())
+    with open(fn, "w") as f:
+        for n in names:
+            f.write("From FB Require GenEq.%s.\nPrint Assumptions FB.GenEq.%s.gen_eq.\n" % (n, n))
+    rc, out = build.sh(["coqc", "-Q", build.COQ, "FB", "-Q", d, "Aud", fn], cwd=d)
+    for ext in (".v", ".vo", ".glob", ".vok", ".vos"):
+        try:
+            os.remove(fn[:-2] + ext)
+        except FileNotFoundError:
+            pass
+    if rc != 0:
+        return {"<error GenEq>": out[-1000:]}
+    chunks = [c.strip() for c in re.split(r"(?m)^(?=Closed under the global context|Axioms:)", out) if c.strip()]
+    if len(chunks) != len(names):
+        return {"<error GenEq>": "expected %d Print Assumptions outputs, got %d" % (len(names), len(chunks))}
+    return {"GenEq.%s.gen_eq" % n: c for n, c in zip(names, chunks)}
+
+
 def closure(targets):
     """.v files in the dependency closure of the targets (from coq_makefile's dependency file)"""
     dep = os.path.join(build.COQ, ".Makefile.d")
@@ -127,9 +153,10 @@ def coqchk(targets):
     return rc, ax, out[-1500:]
 
 
-def run_audit(P, _assumptions, thorough=False):
+def run_audit(P, _assumptions, thorough=False, tie1=None):
     problems = []
     pa = print_assumptions(P.coq_targets)
+    pa.update(print_assumptions_geneq([n for n in getattr(P, "gen_scope", []) if tie1 is None or tie1.get(n, "x") is None]))
     for name, text in pa.items():
         if name.startswith("<error"):
             problems.append("Print Assumptions failed: " + text)
@@ -138,7 +165,7 @@ def run_audit(P, _assumptions, thorough=False):
             bad = [a for a in axioms if a not in ALLOWED_AXIOMS]
             if bad or not axioms:
                 problems.append("theorem %s depends on axioms not in the allowlist: %s" % (name, text[:300]))
-    files = closure(P.coq_targets + ["Run/Main.vo"])
+    files = closure(P.coq_targets + ["Run/Main.vo"] + ["GenEq/%s.vo" % n for n in getattr(P, "gen_scope", []) if tie1 is None or tie1.get(n, "x") is None])
     problems += grep_forbidden(files)
     res = {"ok": not problems, "problems": problems, "print_assumptions": pa, "files_scanned": len(files)}
     if thorough:
